@@ -72,6 +72,10 @@ def _same_num(a: Sym, b: Sym) -> bool:
 
 
 def _ctor_args(ret: Sym) -> Optional[Tuple[Sym, Sym]]:
+    if ret[0] == "call" and len(ret[2]) == 1 and ret[2][0][0] == "star" and not ret[3]:
+        inner = ret[2][0][1]
+        if inner[0] == "tuple" and len(inner[1]) == 2:
+            return inner[1][0], inner[1][1]
     if ret[0] == "call" and len(ret[2]) == 2 and not ret[3]:
         return ret[2][0], ret[2][1]
     if ret[0] == "call":
@@ -86,7 +90,14 @@ def rule_Q1(ctx) -> None:
     for q, need in (("_Timestamp.from_datetime", "floor"), ("_Duration.from_timedelta", "same-sign")):
         fn = mod.func(q)
         ctx.analysed(q)
-        paths = Interp(mod).run(fn)
+        # small module-level helpers that do the split are part of the converter: inline them
+        inl = {}
+        for c in ast.walk(fn):
+            if isinstance(c, ast.Call) and isinstance(c.func, ast.Name) and c.func.id.startswith("_") and mod.has(c.func.id):
+                h = mod.func(c.func.id)
+                if len(h.body) <= 10 and not any(isinstance(n, (ast.For, ast.While)) for n in ast.walk(h)):
+                    inl[c.func.id] = (mod, h)
+        paths = Interp(mod, inline=inl).run(fn)
         ctx.count(len(paths))
         name = f"{q.split('.')[-1]}:division-convention"
         verdicts = []
@@ -113,7 +124,8 @@ def rule_Q1(ctx) -> None:
                 if ts[1] == "floor" and tn[1] == "floor":
                     verdicts.append(("ok", "floor quotient and floor remainder: nanos in [0, 1e9)"))
                 elif magnitude:
-                    verdicts.append(("inc", "magnitude split"))
+                    verdicts.append(("bad", "seconds/nanos are split on the magnitude abs(x) (sign-symmetric): for an instant before the epoch with a fraction this gives negative nanos; "
+                                            "Timestamp needs the floor pair so that nanos is in [0, 1e9)"))
                 else:
                     verdicts.append(("bad", f"seconds uses the {ts[1]} convention and nanos the {tn[1]} convention; Timestamp needs floor/floor so that nanos is in [0, 1e9)"))
             else:
@@ -171,7 +183,8 @@ def _float_ops(s: Sym) -> List[Tuple[Sym, Sym]]:
 
 def rule_Q2(ctx) -> None:
     mod = ctx.repo.mod(M_INIT)
-    for q in ("_Timestamp.from_datetime", "_Duration.from_timedelta", "_Timestamp.to_datetime", "_Duration.to_timedelta"):
+    for q in ("_Timestamp.from_datetime", "_Duration.from_timedelta", "_Timestamp.to_datetime", "_Duration.to_timedelta",
+              "_Duration.delta_to_json", "_Timestamp.timestamp_to_json"):
         fn = mod.func(q)
         ctx.analysed(q)
         paths = Interp(mod).run(fn)
@@ -182,7 +195,8 @@ def rule_Q2(ctx) -> None:
         for p in paths:
             if p.outcome != "return" or p.value is None:
                 continue
-            for op, operand in _float_ops(p.value):
+            terms = [p.value] + [k for k in p.valuation if isinstance(k, tuple) and k and k[0] in ("op", "call")]
+            for op, operand in [x for t_ in terms for x in _float_ops(t_)]:
                 n_ops += 1
                 lo, hi = interval(operand, _range_env)
                 if max(abs(lo), abs(hi)) > TWO53:
@@ -250,6 +264,25 @@ def rule_Q4(ctx) -> None:
                     "delta_to_json(timedelta(seconds=-1.5))")
     else:
         ctx.proved("Q4", "delta_to_json:negative-durations", mod.loc(de))
+    # Q4b: for a negative duration the text starts with a literal '-' (negating an integer part that may be 0 loses the sign)
+    paths = Interp(mod, fork_ifexp=True).run(de)
+    ctx.count(len(paths))
+    neg_paths = [p for p in paths if p.outcome == "return" and any(k[0] == "op" and k[1] == "<" and k[3] == C(0) and v for k, v in p.valuation.items())]
+    bad_sign = None
+    for p in neg_paths:
+        v = p.value
+        first = v[1][0] if v is not None and v[0] == "fstr" else v
+        lit = first is not None and first[0] == "c" and str(first[1]).startswith("-")
+        if not lit:
+            bad_sign = (p, v)
+    if neg_paths and bad_sign is None:
+        ctx.proved("Q4", "delta_to_json:sign-is-literal", mod.loc(de), f"{len(neg_paths)} negative paths start with '-'")
+    elif bad_sign is not None:
+        ctx.refuted("Q4", "delta_to_json:sign-is-literal", "no-literal-minus", mod.loc(de),
+                    f"for a negative duration the emitted text is {show(bad_sign[1])}: it does not start with a literal '-', so the sign depends on the integer seconds part, which is 0 "
+                    "for durations between -1 s and 0 (-0 formats as 0)", "delta_to_json(timedelta(milliseconds=-500))")
+    elif splits_delta:
+        ctx.inconclusive("Q4", "delta_to_json:sign-is-literal", "no path for a negative duration found", mod.loc(de))
     # parser: one numeric conversion of the whole text, or explicit sign handling when the text is split
     fdi = mod.func("Message._from_dict_init")
     sites = [mod.func("Message._from_dict_init")]
